@@ -1,10 +1,11 @@
 #!/bin/sh
 # Builds the driver and warms the Go build cache. Offline; files on disk only.
 set -e
-cd /verif
+cd "$(dirname "$0")"
+V=$(pwd)
 export GOFLAGS=-mod=mod GOPROXY=off GOSUMDB=off GOTOOLCHAIN=local CGO_ENABLED=0
 mkdir -p bin evidence
-(cd cmd/vcheck && go build -o /verif/bin/vcheck .)
+(cd cmd/vcheck && go build -o "$V/bin/vcheck" .)
 # warm the cache: one harness build per flavour (result discarded)
-/verif/bin/vcheck --warm || true
+"$V/bin/vcheck" --warm || true
 echo setup done
